@@ -15,6 +15,7 @@ import TlxVerif.Proofs.C19Helpers
 import TlxVerif.Proofs.C19Trim
 import TlxVerif.Proofs.C19Contains
 import TlxVerif.Proofs.C19Replace
+import TlxVerif.Proofs.C19Lev
 namespace TlxVerif.C19
 open TlxVerif.C18 (Bytes npos)
 open TlxVerif.C18
@@ -377,5 +378,40 @@ example : trimString [32, 9, 97, 32, 98, 10] [32, 13, 10, 9] = [97, 32, 98] ∧
 /-- `contains(str, pattern)` holds exactly when the pattern is an infix of the string -/
 theorem contains_eq (str p : Bytes) (hsz : str.length < npos) : contains str p = true ↔ p <:+: str :=
   contains_iff_infix str p hsz
+
+/-! ## levenshtein -/
+
+/-- the two-row dynamic programme of `levenshtein_algorithm` (with its swap that puts the longer
+string along the rows) computes the defining recurrence `lev_{a,b}(|a|, |b|)` over prefix
+lengths (`Spec.levD`), for every pair of byte strings -/
+theorem levenshtein_eq (a b : Bytes) : levenshtein a b = Spec.lev (· == ·) a b :=
+  levenshteinAlg_eq (· == ·) (fun _ _ => BEq.comm) a b
+
+theorem levenshtein_icase_eq (a b : Bytes) : levenshteinIcase a b = Spec.lev icaseEq a b :=
+  levenshteinAlg_eq icaseEq (fun x y => by unfold icaseEq; exact BEq.comm) a b
+
+example : Spec.lev (· == ·) [107, 105, 116, 116, 101, 110] [115, 105, 116, 116, 105, 110, 103] = 3 := by
+  rw [← levenshtein_eq]; decide
+
+/-- the textbook *head* recursion (compare first characters, recurse on tails) -/
+def levFront (eq : UInt8 → UInt8 → Bool) : Bytes → Bytes → Nat
+  | [], b => b.length
+  | a, [] => a.length
+  | x :: a, y :: b =>
+    min (min (levFront eq a (y :: b) + 1) (levFront eq (x :: a) b + 1))
+      (levFront eq a b + (if eq x y then 0 else 1))
+termination_by a b => a.length + b.length
+
+/-- the recurrence over prefix lengths and the head recursion define the same distance -/
+def lev_front_statement : Prop := ∀ (eq : UInt8 → UInt8 → Bool) (a b : Bytes), Spec.lev eq a b = levFront eq a b
+-- OPEN: lev_front_statement — reversal invariance of the edit distance (prefix recurrence = head recursion) is not proved; the proved theorems relate the code to the prefix recurrence `Spec.levD`, which the Python oracle (full matrix) also implements
+
+/-! ## erase_all in place -/
+
+/-- the in-place overload (scanning from the back with find_last_of / find_last_not_of) removes
+exactly the bytes of the drop set, like the copying overload -/
+def erase_all_inplace_statement : Prop :=
+  ∀ s drop : Bytes, s.length < npos → eraseAllInplace s drop = s.filter (fun c => !drop.contains c)
+-- OPEN: erase_all_inplace_statement — the loop invariant (everything behind pos1 is already free of drop bytes) is not formalised; the in-place and copying overloads are compared on every `erase` line of the correspondence and against Python's bytes.translate
 
 end TlxVerif.C19
